@@ -12,6 +12,8 @@ import os
 import vlib
 
 REQ = ['Base.Show', 'Model.Tracker', 'Spec.TrackerSpec']
+FRONT_MODELS = ['Model.Filter', 'Model.ServerFrontEval']
+FRONT_GEN = ['ServerCtors.v', 'TlsVersions.v', 'TlsModes.v', 'AuthzTable.v', 'Consts.v']
 CASE_T = 'nat * list sop'
 FN = ('fun c : nat * list sop => let \'(m, ops) := c in '
       'let sh := fun v : list N * bool * N => let \'(l, r, x) := v in show_list show_N "," l ++ "/" ++ show_bool r ++ "/" ++ show_N x in '
@@ -119,6 +121,215 @@ def gen_script(r):
             ops.append('H')
             stopped = True
     return (mx, ' '.join(ops))
+
+
+# ---------------------------------------------------------------------------------------------
+# the composed server front-end (Properties/C15_Front.v): filter + tracker + TLS admission + role on ONE server
+FRONT_REQ = ['Base.Show', 'Model.Filter', 'Spec.FrontSpec', 'Model.ServerFrontEval']
+FRONT_T = 'afilter * sfilter * tkind * nat * list fop'
+FRONT_FN = ('fun c : afilter * sfilter * tkind * nat * list fop => let \'(flt, sflt, tk, m, ops) := c in '
+            'model_trace flt tk m ops ++ "#" ++ spec_trace sflt tk m ops')
+# the Spec alone (Spec/FrontSpec.v imports no generated table and no model): still evaluable when a translator
+# fragment or a model of one of the layers is lost
+FRONT_REQ_SPEC = ['Base.Show', 'Spec.FrontSpec']
+FRONT_T_SPEC = 'sfilter * tkind * nat * list fop'
+FRONT_FN_SPEC = 'fun c : sfilter * tkind * nat * list fop => let \'(sflt, tk, m, ops) := c in spec_trace sflt tk m ops'
+FRONT_FILTERS = ['any', 'w:127.0.0.*', 'w:127.0.*.2', 'x:127.0.0.2', 's:127.0.0.1,127.0.0.3', 'w:*.*.*.1', 's:127.0.0.2']
+FRONT_KINDS = {'p': 'KPlain', 's': 'KSilent', 'g': 'KGood', 'v': 'KViewer', 'b': 'KBad', 'l': 'KRoleless'}
+FRONT_FIXED = [
+    ('any', 3, 'tlsauthz', 'C1g C2v C1b C1l C1s C1p'), ('w:127.0.0.2', 3, 'tlsauthz', 'C1g C2g C2v C3g'),
+    ('s:127.0.0.1,127.0.0.3', 2, 'tls', 'C1g C2g C3l C1s C3g S C1g'), ('x:127.0.0.2', 2, 'tcp', 'C1p C2p C2s C2p X1 C2p H'),
+    ('any', 1, 'tlsauthz', 'C1s C1g C1s'), ('w:127.0.*.2', 2, 'tlsauthz', 'C2s C2s C2g C1g C2v X2 C2l'),
+    ('any', 2, 'tls', 'C1l C1b C1g C1p C1g'), ('w:*.*.*.1', 1, 'tlsauthz', 'C2g C1v C3g C1g H C1g'),
+]
+
+
+def front_filter_coq(f):
+    def ip(x):
+        a = x.split('.')
+        return f'(V4 {a[0]} {a[1]} {a[2]} {a[3]})'
+    if f == 'any':
+        return 'Any'
+    kind, rest = f.split(':', 1)
+    if kind == 'x':
+        return f'(Exact {ip(rest)})'
+    if kind == 's':
+        return '(AnyOf [' + '; '.join(ip(x) for x in rest.split(',')) + '])'
+    bs = ['None' if x == '*' else f'(Some {x})' for x in rest.split('.')]
+    return f'(WildcardIpv4 {{| b3 := {bs[0]}; b2 := {bs[1]}; b1 := {bs[2]}; b0 := {bs[3]} |}})'
+
+
+def front_sfilter_coq(f):
+    def ip(x):
+        a = x.split('.')
+        return f'({a[0]}, {a[1]}, {a[2]}, {a[3]})'
+    if f == 'any':
+        return 'FAny'
+    kind, rest = f.split(':', 1)
+    if kind == 'x':
+        return f'(FExact {ip(rest)})'
+    if kind == 's':
+        return '(FAnyOf [' + '; '.join(ip(x) for x in rest.split(',')) + '])'
+    bs = ['None' if x == '*' else f'(Some {x})' for x in rest.split('.')]
+    return f'(FWildcard ({bs[0]}, {bs[1]}, {bs[2]}, {bs[3]}))'
+
+
+def front_to_coq(c, spec_only=False):
+    f, m, tr, script = c
+    ops = []
+    for op in script.split():
+        if op[0] == 'C':
+            ops.append(f'OConnect {op[1]} {FRONT_KINDS[op[2]]}')
+        elif op[0] == 'X':
+            ops.append(f'OClose {op[1:]}%nat')
+        elif op == 'S':
+            ops.append('OShutdown')
+        elif op == 'H':
+            ops.append('ODrop')
+        else:
+            raise ValueError(op)
+    tk = {'tcp': 'TTcp', 'tls': 'TTls', 'tlsauthz': 'TTlsAuthz'}[tr]
+    if spec_only:
+        return f'({front_sfilter_coq(f)}, {tk}, {m}%nat, [{"; ".join(ops)}])'
+    return f'({front_filter_coq(f)}, {front_sfilter_coq(f)}, {tk}, {m}%nat, [{"; ".join(ops)}])'
+
+
+def gen_front(r):
+    f = r.choice(FRONT_FILTERS)
+    tr = r.choice(['tcp', 'tls', 'tlsauthz', 'tlsauthz'])
+    m = r.choice([1, 2, 2, 3])
+    kinds = 'ps' if tr == 'tcp' else 'psgvblggv'
+    n = r.choice([3, 4, 5, 6, 7])
+    ops, conns = [], 0
+    for _ in range(n):
+        w = r.random()
+        if conns == 0 or w < 0.72:
+            ops.append(f'C{r.choice("123")}{r.choice(kinds)}')
+            conns += 1
+        elif w < 0.86:
+            ops.append(f'X{r.randrange(conns)}')
+        elif w < 0.94:
+            ops.append('S')
+        else:
+            ops.append('H')
+    return (f, m, tr, ' '.join(ops))
+
+
+def front_eval(ctx, cases, shards=8):
+    impl = ctx.harness('front', [f'{f} {m} {tr} {sc}' for f, m, tr, sc in cases], args=[os.path.join(vlib.ROOT, 'certs')], shards=shards, timeout=900)
+    if FRONT_MODEL_OK[0]:
+        both = ctx.coq_eval(FRONT_REQ, FRONT_FN, [front_to_coq(c) for c in cases], case_type=FRONT_T, preamble='Local Open Scope string_scope.', per_shard=40)
+    else:
+        so = ctx.coq_eval(FRONT_REQ_SPEC, FRONT_FN_SPEC, [front_to_coq(c, spec_only=True) for c in cases], case_type=FRONT_T_SPEC,
+                          preamble='Local Open Scope string_scope.', per_shard=40)
+        both = [f'{x}#{x}' for x in so]
+    return impl, both
+
+
+FRONT_MODEL_OK = [True]
+
+
+def front_classify(c, impl, spec):
+    kinds = [op[2] for op in c[3].split() if op[0] == 'C']
+    for i, s in zip(impl.split('|'), spec.split('|')):
+        for k, (a, b) in enumerate(zip(i.split(','), s.split(','))):
+            if a == b:
+                continue
+            kind = kinds[k] if k < len(kinds) else '?'
+            if a.startswith('S') and b == '-':
+                if kind in 'bl' or (kind in 'ps' and c[2] != 'tcp'):
+                    return 'front.served-without-valid-handshake'
+                return 'front.served-but-not-admitted-or-evicted'
+            if a == '-' and b.startswith('S'):
+                return 'front.good-connection-not-served'
+            return 'front.wrong-role'
+        if i != s:
+            return 'front.differs'
+    return 'front.differs'
+
+
+def front_shrink(c):
+    f, m, tr, sc = c
+    ops = sc.split()
+    for k in range(len(ops) - 1, -1, -1):
+        rest = ops[:k] + ops[k + 1:]
+        if ops[k][0] == 'C':
+            n = len([o for o in rest if o[0] == 'C'])
+            if any(o[0] == 'X' and int(o[1:]) >= n for o in rest):
+                continue
+            # connection numbers after k shift down by one
+            rest = [(f'X{int(o[1:]) - 1}' if o[0] == 'X' and int(o[1:]) > len([x for x in ops[:k] if x[0] == 'C']) else o) for o in rest]
+        yield (f, m, tr, ' '.join(rest))
+    if f != 'any':
+        yield ('any', m, tr, sc)
+
+
+def run_front(ctx):
+    if ctx.replay and 'front_cases' in ctx.replay:
+        cases = [tuple(c) for c in ctx.replay['front_cases']]
+    elif ctx.replay:
+        return
+    else:
+        cases = list(FRONT_FIXED)
+        while len(cases) < (60 if ctx.quick() else 600):
+            cases.append(gen_front(ctx.rng))
+    impl, both = front_eval(ctx, cases)
+    suspects = [k for k, (i, b) in enumerate(zip(impl, both)) if i != b.split('#')[0] or i != b.split('#')[1]]
+    if suspects:
+        again, _ = front_eval(ctx, [cases[k] for k in suspects], shards=1)
+        for k, i2 in zip(suspects, again):
+            impl[k] = i2
+    bad = n_model = 0
+    for c, i, b in zip(cases, impl, both):
+        model, spec = b.split('#')
+        if i != spec:
+            bad += 1
+            if bad <= 2:
+                def fails(xs):
+                    im, bo = front_eval(ctx, xs, shards=2)
+                    return [a != d.split('#')[1] for a, d in zip(im, bo)]
+                small = vlib.shrink_batch(c, fails, front_shrink, rounds=10, width=10)
+                im, bo = front_eval(ctx, [small], shards=1)
+                sspec = bo[0].split('#')[1]
+                if im[0] == sspec:
+                    small, im, sspec = c, [i], spec
+                ctx.violation(front_classify(small, im[0], sspec),
+                              f'front-end: filter {small[0]}, max_sessions {small[1]}, {small[2]} server, peers "{small[3]}" (C<source 127.0.0.x><p plain|s silent|g good|v other role|b wrong authority|l role-less>): '
+                              f'served connections / roles after each op: implementation {im[0]} but Spec {sspec}',
+                              {'front_cases': [list(small)], 'impl': im[0], 'spec': sspec, 'original_case': list(c)})
+        elif i != model:
+            n_model += 1
+            if n_model == 1:
+                ctx.violation('front.model-differs-from-impl', f'{c}', {'front_cases': [list(c)], 'impl': i, 'model': model, 'spec': spec}, no_failing_input=True)
+    ctx.oblige('correspondence:server-front-end', bad == 0 and n_model == 0, f'{n_model} model / {bad} spec mismatches in {len(cases)} scenarios')
+    fc = {'tcp': 0, 'tls': 0, 'tlsauthz': 0, 'filter_rejects_a_source': 0, 'silent_peer': 0, 'bad_certificate': 0, 'role_less': 0, 'two_roles_on_one_server': 0,
+          'plain_on_tls': 0, 'eviction': 0, 'after_stop': 0}
+    for c, b in zip(cases, both):
+        spec = b.split('#')[1]
+        ops = c[3].split()
+        kinds = [o[2] for o in ops if o[0] == 'C']
+        fc[c[2]] += 1
+        fc['silent_peer'] += 's' in kinds
+        fc['bad_certificate'] += 'b' in kinds
+        fc['role_less'] += 'l' in kinds
+        fc['plain_on_tls'] += c[2] != 'tcp' and 'p' in kinds
+        fc['two_roles_on_one_server'] += 'S:operator' in spec and 'S:viewer' in spec
+        fc['after_stop'] += any(o in 'SH' for o in ops[:-1])
+        steps = spec.split('|')
+        fc['eviction'] += any(sum(x.startswith('S') for x in a.split(',')) > sum(x.startswith('S') for x in b2.split(',')[:len(a.split(','))]) and o[0] == 'C'
+                              for a, b2, o in zip(steps, steps[1:], ops[1:]))
+        if c[0] != 'any':
+            import fnmatch
+            fc['filter_rejects_a_source'] += any(True for o in ops if o[0] == 'C') and '-' in steps[-1]
+    if not ctx.replay:
+        ctx.oblige('front-generator-reaches-expected-classes', all(fc[k] >= 3 for k in ('tcp', 'tls', 'tlsauthz', 'silent_peer', 'bad_certificate', 'role_less',
+                                                                               'two_roles_on_one_server', 'plain_on_tls', 'eviction', 'after_stop')), str(fc))
+    ctx.coverage['front_end'] = {
+        'scenarios': len(cases), 'input_classes': fc, 'rechecked': len(suspects),
+        'rule': 'scenario = (address filter, max_sessions, tcp|tls|tlsauthz server, ops C<source 127.0.0.x><peer kind> X<k> S H); after every op every connection is probed through its session; '
+                'compared: per connection served / not served and the role its authorization query carried, against the composed model and the layer Specs evaluated in Coq',
+        'samples': [list(c) + [i] for c, i in list(zip(cases, impl))[:3]],
+    }
 
 
 def enumerate_scripts(length):
@@ -254,12 +465,20 @@ def shrink_candidates(c):
 
 
 def run(ctx):
-    models_ok = ctx.build_models(REQ)
+    models_ok = ctx.build_models(REQ + ['Spec.FrontSpec'])
+    # the composed front-end rests on the generated tables of its layers: regenerate them, then build it; if that
+    # fails the tie is reported as broken and the front-end family is judged against the Spec alone
+    gen_ok = ctx.translate(FRONT_GEN)
+    FRONT_MODEL_OK[0] = bool(gen_ok) and ctx.build_models(FRONT_MODELS)
+    if not FRONT_MODEL_OK[0]:
+        ctx.coverage['front_model_unavailable_judged_against_spec_only'] = True
     ctx.prove()
     if ctx.tier == 'thorough':
         ctx.coqchk()
     if not ctx.build_harness() or not models_ok:
         return
+    if ctx.replay and 'front_cases' in ctx.replay and 'cases' not in ctx.replay:
+        return run_front(ctx)
     if ctx.replay and 'cases' in ctx.replay:
         cases = [tuple(c) for c in ctx.replay['cases']]
     else:
@@ -363,6 +582,7 @@ def run(ctx):
     if not ctx.replay:
         need = (['with_blocked_reply_write'] if WRITE_STALL_OPS else []) + ['tls_server', 'tls_silent_peer_evicted', 'tls_silent_peer_at_shutdown', 'with_eviction', 'with_garbage', 'with_client_close', 'with_shutdown', 'with_handle_drop', 'connect_after_stop', 'max0', 'three_open_at_once']
         ctx.oblige('generator-reaches-expected-classes', all(classes[k] >= 5 for k in need), str(classes))
+    run_front(ctx)
     ctx.coverage.update({
         'evaluations': len(cases),
         'distinct_nontrivial': len(set(c for c, b in zip(cases, both) if c[1].count('C') + c[1].count('T') >= 2 and len(c[1].split()) >= 3)),
